@@ -94,15 +94,40 @@ func RefWalk(p *core.Prog, r *core.Report) {
 					if !isLk {
 						continue
 					}
+					// the set is filled, in the loop, under the very key that is looked up, and that key names the
+					// reference currently being followed (it varies with the loop: derived from a φ of the loop)
 					filled := false
 					for b2 := range loop {
 						for _, i2 := range b2.Instrs {
-							if mu, isMU := i2.(*ssa.MapUpdate); isMU && mu.Map == lk.X {
+							if mu, isMU := i2.(*ssa.MapUpdate); isMU && mu.Map == lk.X && mu.Key == lk.Index {
 								filled = true
 							}
 						}
 					}
-					if !filled {
+					varies := false
+					var dep func(v ssa.Value, d int) bool
+					dep = func(v ssa.Value, d int) bool {
+						if d > 8 || v == nil {
+							return false
+						}
+						if ph, isPhi := v.(*ssa.Phi); isPhi && loop[ph.Block()] {
+							for _, e := range ph.Edges {
+								if ex, ok := e.(*ssa.Extract); ok && ex.Tuple == ssa.Value(inLoop) {
+									return true
+								}
+							}
+						}
+						if ins, isIns := v.(ssa.Instruction); isIns {
+							for _, op := range ins.Operands(nil) {
+								if op != nil && *op != nil && dep(*op, d+1) {
+									return true
+								}
+							}
+						}
+						return false
+					}
+					varies = dep(lk.Index, 0)
+					if !filled || !varies {
 						continue
 					}
 					// some block guarded by found == true lies outside the loop (or returns)
@@ -121,7 +146,7 @@ func RefWalk(p *core.Prog, r *core.Report) {
 			if ok {
 				r.OK(rule, key, p.Pos(inLoop.Pos()), "the loop following references tests a set of the references it has followed and leaves on a repeat")
 			} else {
-				r.Bad(rule, key, p.Pos(inLoop.Pos()), fn+" follows references in a loop (the loop variable is re-assigned from the resolver's result) without remembering which it has followed: an alias that leads back to itself — X: {$ref: Y}, Y: {$ref: X}, C: {allOf: [{$ref: X}]} — is followed for ever and validate.Spec never returns")
+				r.Bad(rule, key, p.Pos(inLoop.Pos()), fn+" follows references in a loop (the loop variable is re-assigned from the resolver's result) without remembering which it has followed (a set that is tested and filled, in the loop, under the key of the reference being followed): an alias that leads back to itself — X: {$ref: Y}, Y: {$ref: X}, C: {allOf: [{$ref: X}]} — is followed for ever and validate.Spec never returns")
 			}
 		}
 		// (recursion)
